@@ -4,6 +4,7 @@ From Coq Require Extraction.
 From Coq Require Import ExtrOcamlBasic ExtrOcamlString.
 From HV Require Import Model.SetOps Gen.GenInvFilters Model.FrontierModel.
 From HV Require Import Spec.StateIdSpec Model.StateIdModel Gen.GenStorageDigest Gen.GenStateId.
+From HV Require Import Model.PathSliceModel Gen.GenPathSlice.
 Import ListNotations.
 Open Scope Z_scope.
 
@@ -155,11 +156,25 @@ Definition c15_state_classes (a : list Z) : list Z :=
   let ids := map ideal_id (parse_xstates (Z.to_nat n) l) in
   map (fun p => match fst p with None => -1 | Some _ => snd p end) (combine ids (class_ids ideal_id_eqb ids)).
 
+(* the slice: [nconds; (nvars; vars...)*; nstate; state vars...] -> positions of the sliced conditions *)
+Fixpoint parse_lists (n : nat) (l : list Z) : list (list Z) * list Z :=
+  match n with
+  | O => ([], l)
+  | S k => let '(x, l) := poplist l in
+           let '(r, l) := parse_lists k l in (x :: r, l)
+  end.
+Definition c15_slice (a : list Z) : list Z :=
+  let '(n, l) := pop1 a in
+  let '(vs, l) := parse_lists (Z.to_nat n) l in
+  let '(sv, l) := poplist l in
+  map Z.of_nat (p_slice (p_build vs) sv).
+
 Definition table : list (string * (list Z -> list Z)) :=
   [ ("c15_resolve_contracts"%string, c15_resolve_contracts);
     ("c15_sender_allowed"%string, c15_sender_allowed);
     ("c15_resolve_selectors"%string, c15_resolve_selectors);
     ("c15_frontier"%string, c15_frontier);
-    ("c15_state_classes"%string, c15_state_classes) ].
+    ("c15_state_classes"%string, c15_state_classes);
+    ("c15_slice"%string, c15_slice) ].
 
 Extraction "_build/C15/entries.ml" table.
